@@ -277,6 +277,12 @@ def replay(case, lib, inputs, free, label):
     """evaluate the claim on the natively compiled real code at the model's inputs (rounded to the element type)"""
     try:
         O = run_native(lib, case, inputs)
+        rv0 = O['ret']
+        if getattr(case, 'ret_is_fp', False) and isinstance(rv0, float) and (rv0 != rv0 or rv0 in (float('inf'), float('-inf'))):
+            # the real code returned NaN/inf: that is what a reachable division by zero looks like natively; for other claims it is not evaluable
+            if label.startswith('no floating-point division by zero'):
+                return True, {'outputs': {'ret': str(rv0)}, 'note': 'non-finite return value from the real code', 'label': label}
+            return False, {'outputs': {'ret': str(rv0)}, 'note': 'non-finite return value (native overflow): claim not evaluable', 'label': label}
         O['ret'] = _norm_ret(case, O['ret'])
         I = {}
         for a in case.args:
@@ -292,8 +298,10 @@ def replay(case, lib, inputs, free, label):
                     elif kind == 'c': I[spec[0]] = Rat(Fraction(spec[1]))
         if case.pre:
             # the inputs actually passed to the real code (rounded to the element type) must satisfy the stated precondition
+            S.TOL[0] = Fraction(1, 10 ** 9) if case.T == 'd' else Fraction(1, 10 ** 4)     # equalities (unit length ...) hold to rounding only
             try: pre_ok = all((c is True) or (c is not False and not z3.is_false(z3.simplify(c))) for c in case.pre(I) if not isinstance(c, bool) or c is False)
             except Exception: pre_ok = True
+            finally: S.TOL[0] = Fraction(0)
             if not pre_ok: return False, {'outputs': 'rounded inputs violate the precondition', 'label': label}
         if any(v is None for k, vs in O.items() if isinstance(vs, list) for v in vs):
             # inf/NaN from the real code confirms a reachable division by zero; for any other claim it only means the double/float
